@@ -8,7 +8,7 @@
     computed with the real library for every float token of the input. *)
 From Coq Require Import List NArith Bool.
 From Verif Require Import Lib.Utf8 Jsonx.Lex Jsonx.Pos Jsonx.Tok Jsonx.GoStr Jsonx.Num
-  Jsonx.Parse Jsonx.Json Jsonx.Encode Jsonx.Print.
+  Jsonx.Parse Jsonx.Json Jsonx.Encode Jsonx.Script Jsonx.Print.
 Import ListNotations.
 Local Open Scope N_scope.
 
@@ -56,6 +56,12 @@ Inductive uobs :=
 | OJsonErr
 | OMore.
 
+(** Observed result of one call on a long-lived Decoder (op "script"). *)
+Inductive sobs :=
+| SOMore (b : bool)
+| SODec (val : option (list N)) (fin : N) (errs : list N)   (* fin: 0 value, 1 errors, 2 json.Unmarshal error *)
+| SOSer (out : option (list (list N * list N))) (errs : list N).
+
 (** Generic JSON-like value the printer is given (what json.Unmarshal with
     UseNumber produced from json.Marshal(v)). *)
 
@@ -71,6 +77,7 @@ Inductive ccase :=
           (rejects : list (list N * list N))
           (out : option (list (list N * list N))) (errs : list N)
 | CStream (input : list N) (ft : ftable) (vals : list (list N)) (fin : N) (errs : list N)
+| CScript (input : list N) (ft : ftable) (known : list (list N)) (ops : list N) (obs : list sobs)
 | CShell (input : list N) (out : option (list (list N))) (errs : list N)
 | CUnquote (lit : list N) (out : option (list N))
 | CJsonQuote (bs : list N) (out : list N)
@@ -86,6 +93,26 @@ Definition p_toks (l : list ptok) : list (N * list N) :=
   map (fun t => (tyN (pty t), plit t)) l ++ [(tyN TEOF, [])].
 
 Definition pair_eqb_N (a b : N * N) : bool := (fst a =? fst b) && (snd a =? snd b).
+
+Definition sop_of (n : N) : sop :=
+  if n =? 0 then OpMore else if n =? 1 then OpDecode else OpSeries.
+
+Definition sres_eqb (r : sres) (o : sobs) : bool :=
+  match r, o with
+  | RMore b, SOMore b' => Bool.eqb b b'
+  | RDec (DOk t), SODec (Some t') f _ => list_N_eqb t t' && (f =? 0)
+  | RDec (DErrs e), SODec None f errs => (f =? 1) && list_N_eqb (codes e) errs
+  | RDec (DJsonErr _), SODec None f _ => f =? 2
+  | RSer (o1, e), SOSer o2 errs => opt_eqb (list_eqb pair_eqb) o1 o2 && list_N_eqb (codes e) errs
+  | _, _ => false
+  end.
+
+Fixpoint list_eqb2 {A B} (eq : A -> B -> bool) (a : list A) (b : list B) : bool :=
+  match a, b with
+  | [], [] => true
+  | x :: a', y :: b' => eq x y && list_eqb2 eq a' b'
+  | _, _ => false
+  end.
 
 Definition check_case (c : ccase) : bool :=
   match c with
@@ -145,6 +172,13 @@ Definition check_case (c : ccase) : bool :=
       | Ok (vs, None) => list_eqb list_N_eqb vs vals && (fin =? 0)
       | Ok (vs, Some (DErrs e)) => list_eqb list_N_eqb vs vals && (fin =? 1) && list_N_eqb (codes e) errs
       | Ok (vs, Some (DJsonErr _)) => list_eqb list_N_eqb vs vals && (fin =? 2)
+      | _ => false
+      end
+  | CScript input ft known ops obs =>
+      match script (flookup ft) (fun t => t)
+              (fun n => if existsb (list_N_eqb n) known then Some (fun _ => true) else None)
+              (utf8_decode input) (map sop_of ops) with
+      | Ok l => list_eqb2 sres_eqb l obs
       | _ => false
       end
   | CShell input out errs =>
